@@ -75,6 +75,12 @@ NOT_APPLICABLE = {
 
 
 def main():
+    # entries contributed by the component builders
+    d = os.path.join(ROOT, "manifest_entries")
+    if os.path.isdir(d):
+        for fn in sorted(os.listdir(d)):
+            if fn.endswith(".json"):
+                CHECKS[fn[:-5]] = json.load(open(os.path.join(d, fn)))
     props = [json.loads(l)["id"] for l in open(os.path.join(ROOT, "properties.jsonl"))]
     checks = []
     for pid in props:
